@@ -368,8 +368,13 @@ def main():
         if k in raises:
             raise fault(k)
 
+    period_on_instance = bool(case.get("period_on_instance"))
+
     def create_objects(self):
         self.peer = Shared()
+        if period_on_instance:
+            # the robot sets its loop period on the instance (in createObjects), not as a class attribute
+            self.control_loop_wait_time = period_us / 1e6
         if case.get("inj_attrs"):
             for i_ in range(ncomp):
                 for a_ in range(nattr):
@@ -377,7 +382,6 @@ def main():
                         setattr(self, "c%02d_%s" % (i_, an(a_)), 0)
 
     rns = {
-        "control_loop_wait_time": period_us / 1e6,
         "createObjects": create_objects,
         "use_teleop_in_autonomous": bool(case["teleop_in_auto"]),
         "robotPeriodic": robotPeriodic,
@@ -389,6 +393,8 @@ def main():
         "teleopPeriodic": lambda self: cb(["Periodic", "Teleop"]),
         "testPeriodic": lambda self: cb(["Periodic", "Test"]),
     }
+    if not period_on_instance:
+        rns["control_loop_wait_time"] = period_us / 1e6
     split = case["robot_split"]          # components declared on a base robot class come first
     ticks_ = case["ticks"]
     base_rns = {}
